@@ -33,7 +33,10 @@ pub open spec fn kv(t: &StoreTransaction) -> KV { rkv(&t.inner) }
 impl Clone for Byte32 { #[verifier::external_body] fn clone(&self) -> (r: Self) ensures r == *self { unimplemented!() } }
 #[verifier::external_body] pub struct PackedBytes { _x: u64 }
 impl Clone for PackedBytes { #[verifier::external_body] fn clone(&self) -> (r: Self) ensures r == *self { unimplemented!() } }
-pub mod packed { pub use super::{PackedBytes as Bytes, Byte32, TransactionKey, TransactionInfo, PUint64 as Uint64, PackedHeaderView as HeaderView, OutPoint, CellEntry, CellDataEntry, CellOutput, CellEntryBuilder, CellDataEntryBuilder}; }
+#[verifier::external_body] pub struct HeaderDigest { _x: u64 }
+pub uninterp spec fn hd_bytes(d: &HeaderDigest) -> Seq<u8>;
+impl HeaderDigest { #[verifier::external_body] pub fn as_slice(&self) -> (r: &[u8]) ensures r@ == hd_bytes(self) { unimplemented!() } }
+pub mod packed { pub use super::{HeaderDigest, PackedBytes as Bytes, Byte32, TransactionKey, TransactionInfo, PUint64 as Uint64, PackedHeaderView as HeaderView, OutPoint, CellEntry, CellDataEntry, CellOutput, CellEntryBuilder, CellDataEntryBuilder}; }
 pub uninterp spec fn b32(b: &Byte32) -> Seq<u8>;
 pub uninterp spec fn pu64_bytes(p: &PUint64) -> Seq<u8>;
 pub uninterp spec fn u64_le(n: u64) -> Seq<u8>;                       // little-endian 8 bytes
